@@ -162,7 +162,11 @@ def make_iterator(M, src, S):
         elif fld == 'current_board':
             vals.append(Arr([some(copy.deepcopy(S.flop[0])), some(copy.deepcopy(S.flop[1])), some(copy.deepcopy(S.flop[2])), NONE(), NONE()]))
         elif fld == 'current_used_cards':
-            vals.append(PyObj('set', items=[]))
+            # empty between calls, whatever represents it: a set, or a bit mask / counter (zero)
+            if re.search(r'\b(u8|u16|u32|u64|u128|usize)\b', ty) and 'Hash' not in ty and 'Vec' not in ty:
+                vals.append(Int(0, 128 if 'u128' in ty else int_width(ty)))
+            else:
+                vals.append(PyObj('set', items=[]))
         elif fld == 'current_player_indexes':
             w = int_width(ty)
             S.idx_bits = w
